@@ -106,6 +106,32 @@ Proof.
     intros x Hx. apply (sim_ends _ _ _ HS x Hx).
 Qed.
 
+(* ---------- the free list ---------- *)
+
+(* fl is the free list threaded through from_meta from slot 0 (head = - first, i64::MIN = empty):
+   duplicate-free, made of cleared unused slots, and - as long as the capacity has not reached 2^63,
+   the one slot whose negation is i64::MIN - it covers exactly the slots with from_meta < 0 *)
+Lemma sim_free_list g a fl :
+  sim g a fl ->
+  fmeta g 0 = fhead fl /\ fchain (fmeta g) fl /\ NoDup fl /\
+  (forall s, In s fl -> 0 < s < capacity g /\ fmeta g s < 0 /\ from g s = 0 /\ to g s = 0 /\ tmeta g s = 0 /\
+                        ~ In s (a_nodes a) /\ ~ In s (map eslot (a_edges a))) /\
+  (capacity g <= 9223372036854775808 -> forall s, 0 < s < capacity g -> (fmeta g s < 0 <-> In s fl)).
+Proof.
+  intros HS. pose proof (r_free _ _ _ _ _ _ _ _ _ _ _ _ _ (proj2 HS)) as FS.
+  split; [apply (f_head _ _ _ _ _ _ _ _ _ FS)|]. split; [apply (f_chain _ _ _ _ _ _ _ _ _ FS)|].
+  split; [apply (f_nodup _ _ _ _ _ _ _ _ _ FS)|]. split.
+  - intros s Hs. destruct (f_fl _ _ _ _ _ _ _ _ _ FS s Hs) as [Hr [_ [Ha Hb]]].
+    destruct (f_unused _ _ _ _ _ _ _ _ _ FS s Hr Ha Hb) as [U1 [U2 [U3 U4]]]. auto 10.
+  - intros Hcap s Hr. split.
+    + intros Hneg. apply (f_cover _ _ _ _ _ _ _ _ _ FS Hcap s Hr).
+      * intros Hi. destruct (h_node _ _ _ _ _ _ _ (r_out _ _ _ _ _ _ _ _ _ _ _ _ _ (proj2 HS)) s Hi). lia.
+      * intros Hi. apply in_map_iff in Hi. destruct Hi as [x [<- Hx]].
+        destruct (h_rec _ _ _ _ _ _ _ (r_out _ _ _ _ _ _ _ _ _ _ _ _ _ (proj2 HS)) x Hx). lia.
+    + intros Hs. destruct (f_fl _ _ _ _ _ _ _ _ _ FS s Hs) as [_ [_ [Ha Hb]]].
+      apply (f_unused _ _ _ _ _ _ _ _ _ FS s Hr Ha Hb).
+Qed.
+
 (* ---------- the canonical abstraction: what can be recovered from the arrays alone ---------- *)
 
 Definition abs_nodes (g : graph) : list Z := filter (fun i => 0 <? i) (elements g).
